@@ -21,6 +21,8 @@ from fractions import Fraction
 
 import numpy as np
 
+from pwlib.share import shcopy
+
 from pwlib import canon, gens
 from pwlib.canon import counted, flat
 from pwlib.engine import Case
@@ -529,11 +531,11 @@ def make_nearest_compare(flags, nq, nseg, scale, ttol):
 
 def make_nearest(spec):
     from polliwog import Polyline
-    V = np.array(spec["v"], dtype=np.float64).reshape(-1, 3)
-    Q = np.array(spec["q"], dtype=np.float64).reshape(-1, 3)
+    V = np.array(np.reshape(spec["v"], (-1, 3)), dtype=np.float64)
+    Q = np.array(np.reshape(spec["q"], (-1, 3)), dtype=np.float64)
     closed = bool(spec["closed"])
     single = bool(spec["single"]) and len(Q) == 1
-    pl = Polyline(V.copy(), is_closed=closed)
+    pl = Polyline(shcopy(V), is_closed=closed)
     pairs = edge_pairs(len(V), closed)
     nseg = len(pairs)
     scale = max(gens.maxabs(V, Q), 1e-300)
@@ -543,7 +545,7 @@ def make_nearest(spec):
     ttol = Fraction(1e-9) * Fraction(max(1.0, extent / min(pos) if pos else 1.0))
     trivial = nseg == 0 or len(Q) == 0
     kl = "nearest/%s/%s/%s" % (spec["stream"], "closed" if closed else "open", "single" if single else "stack")
-    arg = (lambda: Q[0].copy()) if single else (lambda: Q.copy())
+    arg = (lambda: shcopy(Q[0])) if single else (lambda: shcopy(Q))
     cases = []
     for flags in ALL_FLAGS:
         kw = dict(zip(FLAG_NAMES, flags))
@@ -584,9 +586,9 @@ def make_segfn(spec):
             if rng.random() < 0.3:
                 t = rng.uniform(-0.3, 1.3)
                 Qs[i] = [As[i][c] + t * Vs[i][c] for c in range(3)]
-    Qa = np.array(Qs, dtype=np.float64).reshape(-1, 3)
-    Aa = np.array(As, dtype=np.float64).reshape(-1, 3)
-    Va = np.array(Vs, dtype=np.float64).reshape(-1, 3)
+    Qa = np.array(np.reshape(Qs, (-1, 3)), dtype=np.float64)
+    Aa = np.array(np.reshape(As, (-1, 3)), dtype=np.float64)
+    Va = np.array(np.reshape(Vs, (-1, 3)), dtype=np.float64)
     if spec["bad"]:   # wrong number of rows in one argument -> ValueError from vg.shape.check
         which = rng.choice([0, 1])
         extra = np.zeros((1, 3))
@@ -606,7 +608,7 @@ def make_segfn(spec):
 
     def closest_impl(rt):
         def g():
-            r = closest_point_of_line_segment(Qa.copy(), Aa.copy(), Va.copy(), ret_t_values=rt)
+            r = closest_point_of_line_segment(shcopy(Qa), shcopy(Aa), shcopy(Va), ret_t_values=rt)
             if rt:
                 if not (isinstance(r, tuple) and len(r) == 2):
                     return ["shape:not-a-pair"]
@@ -656,7 +658,7 @@ def make_segfn(spec):
         Qk, Ak, Vk = Qa, Aa, Va
     cases.append(Case(spec, Line("c07.ison").vecs(Qk).vecs(Ak).vecs(Vk).f(eps),
                       lambda: (lambda r: [int(len(r))] + [bool(x) for x in r])(
-                          is_point_on_line_segment(Qk.copy(), Ak.copy(), Vk.copy(), float(eps))),
+                          is_point_on_line_segment(shcopy(Qk), shcopy(Ak), shcopy(Vk), float(eps))),
                       mode="both", klass="ison/" + kl, trivial=len(Qk) == 0, scale=scale))
     if not spec["bad"]:
         cases[0].oracle = lambda _r: oracle_segfn(Qa, Aa, Va, Qk, Ak, Vk, float(eps), scale, ttol)
@@ -729,7 +731,7 @@ def path_length(P):
 
 def make_subpath(spec):
     from polliwog import Polyline
-    V = np.array(spec["v"], dtype=np.float64).reshape(-1, 3)
+    V = np.array(np.reshape(spec["v"], (-1, 3)), dtype=np.float64)
     a = np.array(spec["a"], dtype=np.float64)
     b = np.array(spec["b"], dtype=np.float64)
     closed = bool(spec["closed"])
@@ -755,7 +757,7 @@ def make_subpath(spec):
                 m = max(abs(x - y) for x, y in zip(p, o))
                 if m != 0 and m < Fraction(1e-6):
                     return None
-    pl = Polyline(V.copy(), is_closed=closed)
+    pl = Polyline(shcopy(V), is_closed=closed)
     kl = "subpath/%s/%s/%s" % (spec["kind"], "closed" if closed else "open", config_label(len(V), closed, ia, sa, ib, sb))
 
     def canon_pl(p):
@@ -767,8 +769,8 @@ def make_subpath(spec):
             return m
         # near-tie of the two ways round: either orientation
         try:
-            l12 = float(pl.sliced_at_points(a.copy(), b.copy()).total_length)
-            l21 = float(pl.sliced_at_points(b.copy(), a.copy()).total_length)
+            l12 = float(pl.sliced_at_points(shcopy(a), shcopy(b)).total_length)
+            l21 = float(pl.sliced_at_points(shcopy(b), shcopy(a)).total_length)
         except Exception:
             return m
         if abs(l12 - l21) > 1e-9 * scale * max(1, len(V)):
@@ -785,9 +787,9 @@ def make_subpath(spec):
 
     cases = [
         Case(spec, Line("c07.slicedpts").b(closed).vecs(V).vec(a).vec(b),
-             lambda: canon_pl(pl.sliced_at_points(a.copy(), b.copy())), mode="both", klass="sliced/" + kl, scale=scale),
+             lambda: canon_pl(pl.sliced_at_points(shcopy(a), shcopy(b))), mode="both", klass="sliced/" + kl, scale=scale),
         Case(spec, Line("c07.aligned").b(closed).vecs(V).vec(a).vec(b),
-             lambda: canon_pl(pl.aligned_along_subsegment(a.copy(), b.copy())), mode="both", klass="aligned/" + kl,
+             lambda: canon_pl(pl.aligned_along_subsegment(shcopy(a), shcopy(b))), mode="both", klass="aligned/" + kl,
              scale=scale, compare=aligned_cmp),
     ]
     if simple_ok:
@@ -831,7 +833,7 @@ def oracle_nearest(V, closed, Q, single, scale):
     pairs = edge_pairs(len(V), closed)
     if not pairs or len(Q) == 0:
         return out
-    pl = Polyline(V.copy(), is_closed=closed)
+    pl = Polyline(shcopy(V), is_closed=closed)
     tol = Fraction(1e-9) * Fraction(scale)
     Vf = [Fv(p) for p in V]
     Qf = [Fv(q) for q in Q]
@@ -848,7 +850,7 @@ def oracle_nearest(V, closed, Q, single, scale):
         ck = combo_key(flags)
         desc = "nearest(%s, %s) on %s polyline %s" % ((Q[0] if single else Q).tolist(), kw, "closed" if closed else "open", V.tolist())
         try:
-            res = pl.nearest(Q[0].copy() if single else Q.copy(), **kw)
+            res = pl.nearest(shcopy(Q[0]) if single else shcopy(Q), **kw)
         except Exception as e:  # noqa: BLE001
             out.append(("nearest/raises", "%s raised %s: %s" % (desc, type(e).__name__, e)))
             continue
@@ -934,9 +936,9 @@ def oracle_nearest(V, closed, Q, single, scale):
     # stacked = row by row
     if not single:
         try:
-            full = pl.nearest(Q.copy(), ret_segment_indices=True, ret_distances=True, ret_t_values=True)
+            full = pl.nearest(shcopy(Q), ret_segment_indices=True, ret_distances=True, ret_t_values=True)
             for r in range(nq):
-                one = pl.nearest(Q[r].copy(), ret_segment_indices=True, ret_distances=True, ret_t_values=True)
+                one = pl.nearest(shcopy(Q[r]), ret_segment_indices=True, ret_distances=True, ret_t_values=True)
                 dq = abs(float(one[2]) - float(full[2][r]))
                 rows = tab[r]
                 srt = sorted(fsqrt(x[0]) for x in rows)
@@ -957,8 +959,8 @@ def oracle_segfn(Qa, Aa, Va, Qk, Ak, Vk, eps, scale, ttol):
     k = len(Qa)
     if k:
         try:
-            res, tv = closest_point_of_line_segment(Qa.copy(), Aa.copy(), Va.copy(), ret_t_values=True)
-            res0 = closest_point_of_line_segment(Qa.copy(), Aa.copy(), Va.copy())
+            res, tv = closest_point_of_line_segment(shcopy(Qa), shcopy(Aa), shcopy(Va), ret_t_values=True)
+            res0 = closest_point_of_line_segment(shcopy(Qa), shcopy(Aa), shcopy(Va))
         except Exception as e:  # noqa: BLE001
             return [("closest/raises", "closest_point_of_line_segment raised %s: %s" % (type(e).__name__, e))]
         res = np.asarray(res)
@@ -992,7 +994,7 @@ def oracle_segfn(Qa, Aa, Va, Qk, Ak, Vk, eps, scale, ttol):
                 out.append(("closest/on-segment", "%s: result %s is not on the segment" % (desc, res[i].tolist())))
     if len(Qk):
         try:
-            on = np.asarray(is_point_on_line_segment(Qk.copy(), Ak.copy(), Vk.copy(), eps))
+            on = np.asarray(is_point_on_line_segment(shcopy(Qk), shcopy(Ak), shcopy(Vk), eps))
         except Exception as e:  # noqa: BLE001
             return out + [("ison/raises", "is_point_on_line_segment raised %s: %s" % (type(e).__name__, e))]
         if on.shape != (len(Qk),) or on.dtype != np.bool_:
@@ -1011,7 +1013,7 @@ def oracle_segfn(Qa, Aa, Va, Qk, Ak, Vk, eps, scale, ttol):
 def oracle_subpath(V, closed, a, b, ea, eb, scale):
     from polliwog import Polyline
     out = []
-    pl = Polyline(V.copy(), is_closed=closed)
+    pl = Polyline(shcopy(V), is_closed=closed)
     tol = Fraction(1e-9) * Fraction(scale)
     (ia, sa, pa), (ib, sb, pb) = ea, eb
     desc = "%s polyline %s, a=%s, b=%s" % ("closed" if closed else "open", V.tolist(), a.tolist(), b.tolist())
@@ -1022,7 +1024,7 @@ def oracle_subpath(V, closed, a, b, ea, eb, scale):
     exp = expected_subpath(V, closed, ia, sa, pa, ib, sb, pb)
     if exp is not None:
         try:
-            r = pl.sliced_at_points(a.copy(), b.copy())
+            r = pl.sliced_at_points(shcopy(a), shcopy(b))
             if r.is_closed:
                 out.append(("sliced/open-result", "sliced_at_points returned a closed polyline (%s)" % desc))
             if not same(r.v.tolist(), exp):
@@ -1032,7 +1034,7 @@ def oracle_subpath(V, closed, a, b, ea, eb, scale):
             out.append(("sliced/raises", "sliced_at_points on %s raised %s: %s" % (desc, type(e).__name__, e)))
     # aligned_along_subsegment
     try:
-        al = pl.aligned_along_subsegment(a.copy(), b.copy())
+        al = pl.aligned_along_subsegment(shcopy(a), shcopy(b))
     except Exception as e:  # noqa: BLE001
         out.append(("aligned/raises", "aligned_along_subsegment on %s raised %s: %s" % (desc, type(e).__name__, e)))
         return dedupe(out)
@@ -1054,7 +1056,7 @@ def oracle_subpath(V, closed, a, b, ea, eb, scale):
                 # ... and there the sub-path runs forward: sliced_at_points on the returned polyline yields it
                 expw = expected_subpath(W, False, ja, ta, qa, jb, tb, qb)
                 try:
-                    rw = al.sliced_at_points(a.copy(), b.copy())
+                    rw = al.sliced_at_points(shcopy(a), shcopy(b))
                     if rw.is_closed or not same(rw.v.tolist(), expw):
                         out.append(("aligned/forward-subpath", "on the result of aligned_along_subsegment on %s sliced_at_points "
                                     "returned %s, expected the forward sub-path %s"
